@@ -602,10 +602,55 @@ def run_world(world, wall_limit=20):
             uninstall()
     trace["recs"] = tr.recs if tr else []
     trace["end"] = end
+    if tr is not None and not end["exc"] and not end["hang"]:
+        trace["reader"] = run_reader(tr, pre_rows)
     trace["wall_s"] = round(time.time() - t0, 3)
     if tr is not None:
         trace["rows_all"] = None
     return trace
+
+
+def run_reader(tr, pre_rows):
+    """C08: feed the captured CSV rows to the project's own CSVReader and project what it reconstructs."""
+    import tempfile
+
+    rows = list(pre_rows)
+    for r in tr.recs:
+        rows.extend(r.get("raw_rows", []))
+    d = tempfile.mkdtemp(prefix="erdoscsv_")
+    path = os.path.join(d, "run.csv")
+    out = {"exc": "", "tasks": [], "graphs": [], "sim": [-1] * 6, "nrows": len(rows)}
+    try:
+        with open(path, "w") as f:
+            f.write("\n".join(rows) + "\n")
+        from data.csv_reader import CSVReader
+
+        N = lambda v: -1 if v is None else int(v)  # noqa: E731
+        try:
+            rd = CSVReader([path])
+            sim = rd._simulators[path]
+            for t in sim.tasks:
+                out["tasks"].append({
+                    "t": tr.tidx.get(t.task_id, 0), "rel": N(t.release_time), "irel": N(t.intended_release_time),
+                    "dl": N(t.deadline), "comp": N(t.completion_time), "cancelled": bool(t.cancelled),
+                    "missed": bool(t.missed_deadline), "nplace": len(t.placements),
+                    "ptime": N(t.placements[-1].placement_time) if t.placements else -1, "nskip": len(t.skipped_times),
+                })
+            for name, g in sim.task_graphs.items():
+                out["graphs"].append({
+                    "g": tr.gidx.get(name, 0), "rel": N(g.release_time), "dl": N(g.deadline), "n": N(g.num_tasks),
+                    "cancelled": bool(g.cancelled), "comp": N(g.completion_at), "missed": bool(g.missed_deadline),
+                })
+            out["sim"] = [N(sim.finished_tasks), N(sim.dropped_tasks), N(sim.missed_deadlines), N(sim.finished_task_graphs),
+                          N(sim.dropped_taskgraphs), N(sim.missed_taskgraphs)]
+        except BaseException as e:  # noqa  (the reader asserts)
+            cause = e.__cause__
+            out["exc"] = f"{type(e).__name__}: {str(e)[:160]}" + (f" <- {type(cause).__name__}: {str(cause)[:80]}" if cause else "")
+    finally:
+        import shutil
+
+        shutil.rmtree(d, ignore_errors=True)
+    return out
 
 
 def _worker(args):
